@@ -558,4 +558,67 @@ theorem isRv_congr {inp : Input} {a b : Nat} (h : (inp.cat a == inp.cat b) = tru
   simp only [beq_iff_eq] at h
   simp [Input.isRv, h]
 
+/-! ## extension round 5: in-place compaction (`std::remove_if`, `std::unique`) -/
+
+theorem safe_pops {inp : Input} {a : Nat} {l : List Nat} (hc : ¬ IsLvCr (inp.cat a)) (hb : ∀ i ∈ l, i < inp.size a)
+    (hp : l.Pairwise (· < ·)) : Safe inp (l.map fun i => Instr.pop a i .drop) := by
+  refine ⟨?_, ?_⟩
+  · intro x hx
+    simp only [List.mem_map] at hx
+    obtain ⟨i, hi, rfl⟩ := hx
+    exact (ok_pop inp a i .drop).2 ⟨hc, hb i hi, destOk_drop inp⟩
+  · unfold Clean
+    rw [List.pairwise_map]
+    refine List.Pairwise.imp ?_ hp
+    rintro i j hij b k ⟨rfl, rfl⟩ ⟨_, h⟩
+    omega
+
+theorem safe_compact {inp : Input} {a : Nat} {mask : List Nat} (hc : ¬ IsLvCr (inp.cat a)) (hn : mask.length ≤ inp.size a) :
+    Safe inp (compact a mask) := by
+  unfold compact
+  split
+  · exact safe_readAll hn
+  · rename_i f hf
+    have hlt : f < mask.length := (List.findIdx?_eq_some_iff_findIdx_eq.1 hf).1
+    have hmid : Safe inp ((List.range (mask.length - (f + 1))).flatMap fun j =>
+        Instr.read a (f + 1 + j) :: (if mask[f + 1 + j]? = some 1 then [Instr.shift a (f + 1 + j)] else [])) := by
+      refine ⟨?_, ?_⟩
+      · intro x hx
+        simp only [List.mem_flatMap, List.mem_range, List.mem_cons] at hx
+        obtain ⟨j, hj, rfl | hx⟩ := hx
+        · exact (ok_read inp a _).2 (by omega)
+        · split at hx
+          · simp only [List.mem_singleton] at hx
+            subst hx
+            exact (ok_shift inp a _).2 ⟨hc, by omega⟩
+          · exact absurd hx List.not_mem_nil
+      · apply clean_of_no_kills
+        intro x hx b k hk
+        simp only [List.mem_flatMap, List.mem_range, List.mem_cons] at hx
+        obtain ⟨j, hj, rfl | hx⟩ := hx
+        · exact hk
+        · split at hx
+          · simp only [List.mem_singleton] at hx; subst hx; exact hk
+          · exact absurd hx List.not_mem_nil
+    have hmidk : NoKills ((List.range (mask.length - (f + 1))).flatMap fun j =>
+        Instr.read a (f + 1 + j) :: (if mask[f + 1 + j]? = some 1 then [Instr.shift a (f + 1 + j)] else [])) := by
+      intro x hx b k hk
+      simp only [List.mem_flatMap, List.mem_range, List.mem_cons] at hx
+      obtain ⟨j, hj, rfl | hx⟩ := hx
+      · exact hk
+      · split at hx
+        · simp only [List.mem_singleton] at hx; subst hx; exact hk
+        · exact absurd hx List.not_mem_nil
+    have hpops := safe_pops (inp := inp) (a := a) (l := (List.range mask.length).filter fun i => mask[i]? == some 0) hc
+      (fun i hi => by
+        have := (List.mem_filter.1 hi).1
+        have := List.mem_range.1 this
+        omega)
+      (List.Pairwise.filter _ (@List.pairwise_lt_range mask.length))
+    refine safe_append (safe_append (safe_readAll (by omega)) hmid (cross_of_noKills (noKills_readAll _ _))) hpops ?_
+    intro x hx y hy
+    rcases List.mem_append.1 hx with hx | hx
+    · exact cross_of_noKills (noKills_readAll _ _) x hx y hy
+    · exact cross_of_noKills hmidk x hx y hy
+
 end Fcppt.C05
